@@ -9,7 +9,7 @@ per variant.  Not decided: the accept/reject boundary of token streams and the p
 trip (syn's grammar is the trusted base)."""
 import re
 
-from vlib import mir
+from vlib import resalg, mir
 from . import common
 from .C03 import check_dispatcher
 
@@ -32,27 +32,25 @@ def by_variant(ctx, f, base="a1"):
 
 
 def inner_by_variant(ctx, f, base="a1"):
-    """The dispatchers return map_err(<match result>, closure): recover the per-variant values of the match result."""
+    """Routing table of a dispatcher, read off its case table (vlib.resalg): per variant of the
+    argument, the calls whose outcome decides the result (`is_ok(call)` conditions), or the value
+    itself when the arm does not call anything.  The layout of the match (bound to a local or not,
+    `?` or explicit arms) does not matter."""
     out = {}
-    for d in f.defs().get(0, []):
-        blk, i, kind, node = d
-        if f.is_cleanup(blk) or kind != "call":
-            continue
-        c = mir.callee_of(node)
-        if c != "core::result::Result::<T, E>::map_err":
-            continue
-        a0 = node["args"][0]
-        if a0["k"] in ("copy", "move") and not a0["p"]["proj"]:
-            l = a0["p"]["local"]
-            s, _ = ctx.sym(f)
-            from vlib import sym as S
-            for dd in f.defs().get(l, []):
-                if f.is_cleanup(dd[0]) or dd[2] not in ("assign", "call"):
-                    continue
-                e = s.show(S.strip_transparent(s._def_expr(dd, 0)))
-                for pc in ctx.pc_strs(f, dd[0]):
-                    ks = [a for a in pc if a.startswith("discr(%s)=" % base)]
-                    out.setdefault(ks[0] if ks else "", []).append(e)
+    for conds, v in resalg.cases(ctx, f):
+        ks = [a for a in conds if a.startswith("discr(%s)=" % base)]
+        k = ks[0] if ks else ""
+        srcs = []
+        for a in conds:
+            m = re.match(r"^is_ok\((.*)\)=(True|False)$", a)
+            if m:
+                srcs.append(m.group(1))
+        if not srcs:
+            m = re.match(r"^core::result::Result::Err\{darling_core::error::Error::with_span\((.*), %s\)\}$" % base, v)
+            srcs = ["core::result::Result::Err{%s}" % m.group(1)] if m else [v]
+        for x in srcs:
+            if x not in out.setdefault(k, []):
+                out[k].append(x)
     return out
 
 
@@ -114,7 +112,7 @@ def run(ctx):
         ok_path = v.get("discr(a1)=Path") == ["%sfrom_word()" % T]
         ok_nv = v.get("discr(a1)=NameValue") == ["%sfrom_expr((a1 as NameValue).0.value)" % T]
         lst = v.get("discr(a1)=List") or []
-        ok_list = any(re.match(r"^%sfrom_list\(.*index\(\(.*branch\(darling_core::ast::data::NestedMeta::parse_meta_list\(.*clone\(\(a1 as List\)\.0\.tokens\)\)\) as Continue\)\.0, " % re.escape(T), e) for e in lst)
+        ok_list = any(re.match(r"^%sfrom_list\(.*index\(\(darling_core::ast::data::NestedMeta::parse_meta_list\(.*clone\(\(a1 as List\)\.0\.tokens\)\) as Ok\)\.0, " % re.escape(T), e) for e in lst)
         ctx.ob("C15.E.meta-routing-word", f.key, "Path → from_word()", ok_path, "%s" % v.get("discr(a1)=Path"))
         ctx.ob("C15.E.meta-routing-value", f.key, "NameValue → from_expr(&value.value)", ok_nv, "%s" % v.get("discr(a1)=NameValue"))
         ctx.ob("C15.E.meta-routing-list", f.key, "List → from_list(&parse_meta_list(tokens.clone())?[..])", ok_list, "%s" % [e[:200] for e in lst])
